@@ -681,10 +681,29 @@ def canon_applicable(s):
     return True
 
 
+def corner_graphs():
+    """deterministic corner cases that always run first: every way an SE(2) landmark offset can differ from the identity (each component alone,
+    rotation only, translation only), an exact duplicate of an edge, an SE(3) half-turn measurement with scalar part -0.0"""
+    out = []
+    for off in ([0.0, 0.0, 0.3], [0.0, 0.0, PI / 2], [0.0, 0.0, -3.0], [0.25, 0.0, 0.0], [0.0, -1.5, 0.0], [0.1, 0.2, 0.3], [0.0, 0.0, 0.0]):
+        vs = [Vertex(1, PoseSE2([1.0, 2.0], 0.5)), Vertex(2, PoseR2([3.0, -1.0]))]
+        es = [EdgeLandmark([1, 2], np.array([[2.0, 0.5], [0.5, 1.0]]), PoseR2([0.5, 0.25]), PoseSE2(off[:2], off[2]), None)]
+        out.append(Graph(es, vs))
+    vs = [Vertex(1, PoseSE2([0.0, 0.0], 0.0)), Vertex(2, PoseSE2([1.0, 0.0], 0.1))]
+    e = EdgeOdometry([1, 2], np.eye(3), PoseSE2([1.0, 0.0], 0.1))
+    out.append(Graph([e, copy.deepcopy(e), copy.deepcopy(e)], vs))
+    vs = [Vertex(1, PoseSE3([0.0, 0.0, 0.0], [0.0, 0.0, 0.0, 1.0])), Vertex(2, PoseSE3([1.0, 0.0, 0.0], [1.0, 0.0, 0.0, 0.0]))]
+    out.append(Graph([EdgeOdometry([1, 2], np.eye(6), PoseSE3([1.0, 0.0, 0.0], [1.0, 0.0, 0.0, -0.0]))], vs))
+    return out
+
+
 def run_export(rng, n, prefix):
     """n random graphs through model export and Graph.to_g2o; for those inside the hypotheses of C13_roundtrip also
     the model's canon g (and canon (canon g)) against the graph re-imported after one (two) real cycles."""
     stats, cases = {}, []
+    for g in corner_graphs():
+        s, atoms, expr = export_case_expr(g)
+        cases.append((g, s, atoms, expr))
     for k in range(n):
         g = gen_graph(rng, ['ok', 'ok', 'any', 'ok', 'ok', 'defect'][k % 6])
         s, atoms, expr = export_case_expr(g)
